@@ -213,27 +213,51 @@ def timeAtElevation (obs : Obs α) (elevation : α) (date : Date) (dir : Dir) (t
   onMathDomain (rematch (fun d => timeOfTransit obs d zenith dir' withRefraction) tz.utc date)
     (.error .neverReaches)
 
-/-- the UTC computation of noon (sun.py `_noon_utc`) -/
-def noonUtc (obs : Obs α) (date : Date) : Except Err Instant := do
-  let jc : α := julianDayToCentury (julianDayDate date)
-  let eqtime := eqOfTime jc
-  let timeUTC : α := (720.0 - (4.0 * obs.lon) - eqtime) / 60.0
-  let hour := trunc timeUTC
-  let minute := trunc ((timeUTC - ofInt hour) * 60.0)
-  let second := trunc ((((timeUTC - ofInt hour) * 60.0) - ofInt minute) * 60.0)
+/-- the second/minute carries shared by noon and midnight (sun.py:417-429, 489-501) -/
+def carrySM (hour minute second : Int) : Int × Int × Int :=
   let (second, minute) :=
     if second > 59 then (second - 60, minute + 1)
     else if second < 0 then (second + 60, minute - 1) else (second, minute)
   let (minute, hour) :=
     if minute > 59 then (minute - 60, hour + 1)
     else if minute < 0 then (minute + 60, hour - 1) else (minute, hour)
-  if hour > 23 then
+  (hour, minute, second)
+
+/-- hour, minute, second of a float number of hours, truncating toward zero at each step -/
+def splitHours (timeUTC : α) : Int × Int × Int :=
+  let hour := trunc timeUTC
+  let minute := trunc ((timeUTC - ofInt hour) * 60.0)
+  let second := trunc ((((timeUTC - ofInt hour) * 60.0) - ofInt minute) * 60.0)
+  (hour, minute, second)
+
+/-- noon's date roll: `hour > 23` → next day, `hour < 0` → previous day -/
+def mkNoon? (date : Date) (hms : Int × Int × Int) : Except Err Instant :=
+  let (hour, minute, second) := carrySM hms.1 hms.2.1 hms.2.2
+  if hour > 23 then do
     let d ← dateAdd? date 1
     mkDateTime? d (hour - 24) minute second 0
-  else if hour < 0 then
+  else if hour < 0 then do
     let d ← dateAdd? date (-1)
     mkDateTime? d (hour + 24) minute second 0
   else mkDateTime? date hour minute second 0
+
+/-- midnight's date roll: only `hour < 0` → previous day -/
+def mkMidnight? (date : Date) (hms : Int × Int × Int) : Except Err Instant :=
+  let (hour, minute, second) := carrySM hms.1 hms.2.1 hms.2.2
+  if hour < 0 then do
+    let d ← dateAdd? date (-1)
+    mkDateTime? d (hour + 24) minute second 0
+  else mkDateTime? date hour minute second 0
+
+/-- noon in hours after 00:00 UTC of the date (sun.py:409-411) -/
+def noonHours (lon : α) (date : Date) : α :=
+  let jc : α := julianDayToCentury (julianDayDate date)
+  let eqtime := eqOfTime jc
+  (720.0 - (4.0 * lon) - eqtime) / 60.0
+
+/-- the UTC computation of noon (sun.py `_noon_utc`) -/
+def noonUtc (obs : Obs α) (date : Date) : Except Err Instant :=
+  mkNoon? date (splitHours (noonHours obs.lon date))
 
 /-- sun.py noon: re-matched to the requested date in the output zone -/
 def noon (obs : Obs α) (date : Date) (tz : TZ) : Except Err Instant := do
@@ -243,26 +267,17 @@ def noon (obs : Obs α) (date : Date) (tz : TZ) : Except Err Instant := do
     let nd ← dateAdd? date (if localDate tz.utc t < date then 1 else -1)
     noonUtc obs nd
 
-/-- the UTC computation of midnight (sun.py `_midnight_utc`) -/
-def midnightUtc (obs : Obs α) (date : Date) : Except Err Instant := do
+/-- midnight in hours after 00:00 UTC of the date (sun.py:477-484) -/
+def midnightHours (lon : α) (date : Date) : α :=
   let jd : α := julianDayWall (dateStart date + 12 * usPerHour)
-  let newt : α := julianDayToCentury (jd + 0.5 + -obs.lon / 360.0)
+  let newt : α := julianDayToCentury (jd + 0.5 + -lon / 360.0)
   let eqtime := eqOfTime newt
-  let timeUTC : α := (-obs.lon * 4.0) - eqtime
-  let timeUTC := timeUTC / 60.0
-  let hour := trunc timeUTC
-  let minute := trunc ((timeUTC - ofInt hour) * 60.0)
-  let second := trunc ((((timeUTC - ofInt hour) * 60.0) - ofInt minute) * 60.0)
-  let (second, minute) :=
-    if second > 59 then (second - 60, minute + 1)
-    else if second < 0 then (second + 60, minute - 1) else (second, minute)
-  let (minute, hour) :=
-    if minute > 59 then (minute - 60, hour + 1)
-    else if minute < 0 then (minute + 60, hour - 1) else (minute, hour)
-  if hour < 0 then
-    let d ← dateAdd? date (-1)
-    mkDateTime? d (hour + 24) minute second 0
-  else mkDateTime? date hour minute second 0
+  let timeUTC : α := (-lon * 4.0) - eqtime
+  timeUTC / 60.0
+
+/-- the UTC computation of midnight (sun.py `_midnight_utc`) -/
+def midnightUtc (obs : Obs α) (date : Date) : Except Err Instant :=
+  mkMidnight? date (splitHours (midnightHours obs.lon date))
 
 /-- 00:00:00 of `date` in the zone, as a UTC instant (`datetime(y, m, d, tzinfo=tz)`) -/
 def startOfDay (tz : TZ) (date : Date) : Instant := dateStart date - tz.loc (dateStart date)
